@@ -30,9 +30,16 @@ class TSpec:
         return self.makers
 
 
+obj_nonempty = z3.Function('obj_nonempty', sym.ObjS, z3.BoolSort())
+
+
 def _opaque(kind):
     def mk(st, name):
-        return SOpaque(kind, st.fresh(name + '_' + kind, sym.ObjS))
+        t = st.fresh(name + '_' + kind, sym.ObjS)
+        info = {}
+        if kind in ('dict', 'list', 'tuple'):
+            info['truthy'] = obj_nonempty(t)
+        return SOpaque(kind, t, info)
     return mk
 
 
@@ -79,7 +86,8 @@ def not_types(*labels):
 # ---------------------------------------------------------------- contracts
 class Case:
     def __init__(self, name, when=None, returns=None, raises=None, post=None, effects=None,
-                 may_raise=None, havoc=None):
+                 may_raise=None, havoc=None, need_cover=True):
+        self.need_cover = need_cover  # must some path reach this case (vacuity guard)?
         self.may_raise = may_raise  # exception classes the function may raise instead of returning (relational cases)
         self.havoc = havoc          # ctx -> fresh result value satisfying `post` (used at call sites for relational cases)
         self.name = name
@@ -112,7 +120,8 @@ class Ctx:
 class Contract:
     def __init__(self, target, params, cases, requires=None, reads=(), modifies=(), inline=(),
                  loops=None, selector=None, name=None, pure=True, setup=None, trusted=False, doc='',
-                 bounded=True):
+                 bounded=True, complete=False):
+        self.complete = complete        # cases are exhaustive by construction (g / not g): skip that obligation
         self.target = target            # 'pamqp.encode.short_uint' or 'pamqp.base.Frame.marshal'
         self.params = params            # [(name, TSpec)]
         self.cases = cases
@@ -359,7 +368,7 @@ def explore(st, fn):
     while work:
         mini = work.pop()
         n += 1
-        if n > 200:
+        if n > 3000:
             raise EngineError('specification-side evaluation explodes')
         with scope(st):
             st.prefix = base + mini
@@ -426,6 +435,7 @@ class Verifier:
         self.want_smt2 = want_smt2
         self.max_paths = max_paths
         self.timeout_ms = timeout_ms
+        self.budget_s = 240
 
     def instances(self, c):
         specs = [spec.instances() for _, spec in c.params]
@@ -447,6 +457,8 @@ class Verifier:
             self.verify_instance(c, label, combo, results, stats)
         # cover: every case reachable (vacuity guard)
         for case in c.cases:
+            if not case.need_cover:
+                continue
             hit = case.name in stats['cases_hit']
             results.append(Result('%s#cover:%s' % (c.name, case.name), 'proved' if hit else 'undecided',
                                   detail='' if hit else 'contract case never reached by any path', kind='cover'))
@@ -479,9 +491,14 @@ class Verifier:
         work = [[]]
         npath = 0
         base = '%s[%s]' % (c.name, label)
+        t_begin = time.time()
         while work:
             prefix = work.pop()
             npath += 1
+            if time.time() - t_begin > self.budget_s:
+                results.append(Result(base + '#budget', 'undecided', kind='engine',
+                                      detail='time budget of %ds for one instance exhausted after %d paths' % (self.budget_s, npath)))
+                break
             if npath > self.max_paths:
                 results.append(Result(base + '#paths', 'undecided', detail='more than %d paths' % self.max_paths,
                                       kind='engine'))
@@ -525,9 +542,20 @@ class Verifier:
             guards = [True if k.when is None else k.when(ctx) for k in c.cases]
             results.append(check_goal(st, pname + '#some-case-applies', disj(*guards), kind='exhaustive',
                                       want_smt2=self.want_smt2, concretise=conc))
-        explore(st, exhaustive)
+        if not c.complete:
+            explore(st, exhaustive)
         # (2) each applicable case's outcome
         for k in c.cases:
+            if outcome[0] == 'raise':
+                allowed = k.raises if k.raises is not None else k.may_raise
+                if allowed and issubclass(outcome[1], allowed if isinstance(allowed, tuple) else (allowed,)):
+                    # whatever the guard says, this outcome satisfies the clause
+                    results.append(Result('%s#%s' % (pname, k.name), 'proved', 0.0, 'syntactic',
+                                          detail='raised class allowed by this clause', kind='post'))
+                    if k.when is None or k.may_raise:
+                        stats['cases_hit'].add(k.name)
+                    continue
+
             def one(k=k):
                 g = True if k.when is None else k.when(ctx)
                 if isinstance(g, SBool):
